@@ -159,8 +159,8 @@ def correspondence(ctx):
 def oracle(ctx):
     cons = constructive_cases(ctx, ctx.budget(1500, 60000))
     nt = set()
-    for case, exp, nontrivial in cons:
-        impl = pipeline.run_impl(case)
+    impls = pipeline.impl_many([c for c, _, _ in cons])
+    for (case, exp, nontrivial), impl in zip(cons, impls):
         ctx.count('evaluations')
         if nontrivial:
             nt.add(case['src'])
